@@ -351,6 +351,38 @@ func runMerge(c *mCase) {
 	}
 }
 
+// mergeInterleave: single-session histories over the same number of children
+// become one history of len(cs) sessions of ONE handler value.  The steps of a
+// session keep their order; the sessions are interleaved at random, in runs of
+// random length (so that both fine interleavings and "one session overtakes
+// the other" occur).
+func mergeInterleave(r *common.Rand, cs []mCase) mCase {
+	out := mCase{N: cs[0].N, Sess: len(cs)}
+	pos := make([]int, len(cs))
+	for {
+		var live []int
+		for k := range cs {
+			if pos[k] < len(cs[k].Steps) {
+				live = append(live, k)
+			}
+		}
+		if len(live) == 0 {
+			return out
+		}
+		k := live[r.Intn(len(live))]
+		run := 1
+		if r.Chance(30) {
+			run = 1 + r.Intn(4)
+		}
+		for ; run > 0 && pos[k] < len(cs[k].Steps); run-- {
+			st := cs[k].Steps[pos[k]]
+			st.S = k
+			out.Steps = append(out.Steps, st)
+			pos[k]++
+		}
+	}
+}
+
 // stripMergeOutputs removes recorded observations (replay mode reads inputs only).
 func stripMergeOutputs(c *mCase) {
 	c.Fail = ""
